@@ -41,7 +41,8 @@ func otfToBCP47(script otfScript, lang otfLang) (language.Tag, error) {
 		tag += "-" + bcpScript
 	}
 
-	tag += "-x-" + string(script)
+	// script tags shorter than four letters ("lao ", "yi  ") are padded with spaces
+	tag += "-x-" + strings.TrimRight(string(script), " ")
 	for len(lang) > 0 && lang[len(lang)-1] == ' ' {
 		lang = lang[:len(lang)-1]
 	}
@@ -65,6 +66,9 @@ func bcp47ToOtf(tag language.Tag) (otfScript, otfLang, error) {
 		script = m[1]
 		if script == "dflt" {
 			script = "DFLT"
+		}
+		for len(script) < 4 {
+			script += " "
 		}
 		if len(m) > 2 {
 			lang = strings.ToUpper(m[2])
